@@ -9,6 +9,8 @@ import (
 
 	"golang.org/x/tools/go/packages"
 
+	"golang.org/x/tools/go/ssa"
+
 	"pdfverif/internal/core"
 )
 
@@ -463,10 +465,11 @@ func ruleDecodeExclusive(c *core.Ctx) {
 func ruleReaderImmutable(c *core.Ctx) {
 	const rule = "C18-R5"
 	constructors := map[string]string{
-		"pdf.NewReader":              "constructor",
-		"pdf.Open":                   "constructor: sets ownsReader before the Reader is handed out",
-		"pdf.(*Reader).readXRef":     "called only from NewReader, fills unencrypted while the xref is read",
-		"pdf.(*FileInfo).MakeReader": "constructor for recovered files",
+		"pdf.NewReader":                  "constructor",
+		"pdf.Open":                       "constructor: sets ownsReader before the Reader is handed out",
+		"pdf.(*Reader).readXRef":         "called only from NewReader, fills unencrypted while the xref is read",
+		"pdf.(*FileInfo).MakeReader":     "constructor for recovered files",
+		"pdf.(*Reader).parseEncryptDict": "called only from the constructors, before the Reader is handed out (checked below)",
 	}
 	c.Check(rule, "pdf.Reader/writers", "a Reader is immutable after construction: its fields and the maps behind them are written only by the constructors, so concurrent Get/DecodeStream share no mutable state", func(o *core.Ob) {
 		pkg := c.Prog.Pkg("pdf")
@@ -526,12 +529,65 @@ func ruleReaderImmutable(c *core.Ctx) {
 		}
 		o.Require(n >= 8, "only %d writes to Reader fields found, expected at least 8 (all in constructors)", n)
 	})
-	c.Check(rule, "pdf.(*Reader).readXRef/caller", "readXRef is reachable only from the constructor", func(o *core.Ob) {
+	// the same through aliases: no Reader method other than the constructors (and Close) stores
+	// through memory reachable from the Reader (e.g. through a *xRefEntry taken from the table)
+	var ma *core.MutAnalysis
+	pkgR := c.Prog.Pkg("pdf")
+	nMeth := 0
+	for _, fn := range c.Prog.Funcs(pkgR) {
+		fn := fn
+		if fn.Decl.Recv == nil || len(fn.Decl.Recv.List) != 1 {
+			continue
+		}
+		if !core.IsNamed(fn.Info().TypeOf(fn.Decl.Recv.List[0].Type), "pdf", "Reader") {
+			continue
+		}
+		if _, isCons := constructors[fn.Key]; isCons {
+			continue
+		}
+		nMeth++
+		c.Check(rule, fn.Key+"/no-store", "the method stores nothing through memory reachable from its Reader (SSA may-write analysis over static calls and pdf's own interface implementations): concurrent calls share the Reader", func(o *core.Ob) {
+			if ma == nil {
+				ma = core.NewMutAnalysis(c.Prog)
+				ma.ImplPkgs[core.ModulePath] = true
+				ma.ExemptTypes["pdf.scanner"] = "a scanner is created per call (rule fresh-scanner) and never stored in the Reader; its read position is its own state"
+			}
+			sf := ma.S.FuncValue(fn.Obj)
+			if sf == nil || len(sf.Params) == 0 {
+				core.Undecided("no SSA function for %s", fn.Key)
+			}
+			o.At(fn.Site(fn.Decl, "receiver "+sf.Params[0].Name()))
+			before := len(ma.Visited)
+			ws := ma.Mutations(sf, []ssa.Value{sf.Params[0]}, nil)
+			o.Count(len(ma.Visited) - before + 1)
+			seen := map[string]bool{}
+			for _, w := range ws {
+				pos := c.Prog.Pos(w.Pos)
+				if seen[pos+w.What] {
+					continue
+				}
+				seen[pos+w.What] = true
+				if why, ok := readerStoreJustified[fn.Key+"|"+w.Fn]; ok {
+					o.Fact("%s: %s (%s)", pos, w.What, why)
+					continue
+				}
+				o.Sites = append(o.Sites, core.Site{Pos: pos, Func: w.Fn, Note: w.What})
+				o.Fail("%s: %s in %s (call chain: %s)", pos, w.What, w.Fn, strings.Join(w.Chain, " -> "))
+			}
+		})
+	}
+	c.Floor(rule, 8)
+	c.Check(rule, "pdf.(*Reader).readXRef/caller", "readXRef and parseEncryptDict are reachable only from the constructors", func(o *core.Ob) {
 		pkg := c.Prog.Pkg("pdf")
 		for _, fn := range c.Prog.Funcs(pkg) {
 			for _, call := range core.CallsTo(fn.Info(), fn.Decl, true, "pdf.(*Reader).readXRef") {
 				o.At(fn.Site(call, "calls readXRef"))
 				o.Require(fn.Key == "pdf.NewReader", "%s calls readXRef (which writes Reader state)", fn.Key)
+			}
+			for _, call := range core.CallsTo(fn.Info(), fn.Decl, true, "pdf.(*Reader).parseEncryptDict") {
+				o.At(fn.Site(call, "calls parseEncryptDict"))
+				_, isCons := constructors[fn.Key]
+				o.Require(isCons, "%s calls parseEncryptDict (which authenticates and stores the key) after construction", fn.Key)
 			}
 		}
 	})
@@ -798,3 +854,6 @@ func checkOnce(o *core.Ob, fn *core.Func, v types.Object, once types.Object) {
 }
 
 var _ = packages.NeedName
+
+// stores through Reader-reachable memory that are part of the design; key: method|function containing the store.
+var readerStoreJustified = map[string]string{}
